@@ -142,7 +142,6 @@ func TestVerifC05MultiProfile(t *testing.T) {
 	// three profiles, each with its own real Reservation plugin (expensive: once per test function)
 	profileNames := []string{"koord-scheduler", "koord-scheduler-batch", "koord-scheduler-third"}
 	var plugins []*Plugin
-	var fws []frameworkext.FrameworkExtender
 	allProfiles := profile.Map{}
 	for _, name := range profileNames {
 		fw, err := schedulertesting.NewFramework(ctx,
@@ -155,6 +154,7 @@ func TestVerifC05MultiProfile(t *testing.T) {
 			frameworkruntime.WithInformerFactory(informerFactory),
 			frameworkruntime.WithSnapshotSharedLister(newFakeSharedLister(nil, nil, false)),
 			frameworkruntime.WithEventRecorder(eventRecorder),
+			frameworkruntime.WithWaitingPods(frameworkruntime.NewWaitingPodsMap()), // the global handler rejects a waiting reserve pod on delete
 		)
 		if err != nil {
 			t.Fatal(err)
@@ -166,7 +166,6 @@ func TestVerifC05MultiProfile(t *testing.T) {
 		plugins = append(plugins, p.(*Plugin))
 		allProfiles[name] = fw
 	}
-	_ = fws
 	if got := len(frameworkext.GetAllReservationCaches()); got != len(profileNames) {
 		t.Fatalf("expected one registered reservation cache per profile, got %d", got)
 	}
